@@ -151,6 +151,10 @@ def label_loops(fnode):
                 if isinstance(s, ast.With):
                     pass
     walk(fnode.body, "L", [0])
+    rets = [n for n in ast.walk(fnode) if isinstance(n, ast.Return)]
+    rets.sort(key=lambda n: (n.lineno, n.col_offset))
+    for k, n in enumerate(rets):
+        n._retlabel = "return#%d" % k
     label_calls(fnode)
     return labels
 
